@@ -1,9 +1,12 @@
 //! nvh — correspondence harness: runs the real nervusdb crates on line-protocol streams.
 //!   nvh gen <stream> <seed> <n> [tier]   print op lines (deterministic in seed)
 //!   nvh run <stream>                      read op lines on stdin, one canonical output line each
+mod capi_session;
 mod qeng;
 mod rng;
+mod sched;
 mod streams;
+mod tok;
 mod util;
 mod vtok;
 
